@@ -22,3 +22,15 @@ PROPS = {
         assumptions=['Go slices behave as immutable values inside one Assemble/Decode call'],
     ),
 }
+
+PROPS['C12'] = dict(
+    tests=['TestC12'],
+    monitor_tags=set(),
+    panic_is_violation={1201, 1202, 1203},
+    rule='random messages (hlen 0..16, 1-6 options, codes 1..254 and all typed codes, payloads 0..255) assembled, decoded and typed; '
+         'messages outside the round-trip domain (no options, payload > 255, hlen > 16, codes 0/255); every option area over the alphabet '
+         '{pad,end,1,2,53,4} up to length 5 (thorough 7) exhaustively; truncation at every offset; every hlen 0..255; structured random bytes; '
+         'every typed option with payload lengths 0..9,12,16,17,252,255 and duplicates. Non-trivial = at least 240 bytes / at least one option.',
+    trusted=['lib/dhcpmsg/{parse,assemble,optshelper}.go are modelled by hand in coq/model/Dhcp.v; the tie is the differential run'],
+    assumptions=['option payload slices are treated as values (aliasing of the receive buffer is the subject of C09)'],
+)
